@@ -145,7 +145,7 @@ Theorem checked_history_is_instance : forall (cfg : c8cfg) (reqs : list (c8req *
                              (written (map Some ss)) = Some (map observable ss).
 Proof. exact checked_history_lemma. Qed.
 
-(** The same tie for the histories that meet a stream of unknown length (fourth field of [h1w.expect]): up to and
+(** The same tie for the histories that meet a stream of unknown length (fifth field of [h1w.expect]): up to and
     including the first such answer the history is an instance of [closing_history]. *)
 Theorem checked_closing_history_is_instance : forall (cfg : c8cfg) (reqs : list (c8req * bytes * nat)) (n : nat),
   c8_hyps_closing cfg (c8_state0 cfg) (with_actions (c8_limit cfg) 1 reqs) O = Some n ->
